@@ -45,6 +45,7 @@ for pid in ids:
             hit.update(tuple(x) for x in json.load(open(os.path.join(d, f))))
     shutil.rmtree(d, ignore_errors=True)
     rep = []
+    never = []
     tot = miss = 0
     files = sorted(set(props[pid]['anchors']['files']))
     for path in files:
@@ -52,10 +53,12 @@ for pid in ids:
         for name, first, lines in sorted(fns, key=lambda t: t[1]):
             got = {ln for ln in lines if (path, ln) in hit}
             if not got:
-                continue               # function never entered by this check: not part of what it drives
+                never.append('%s:%d %s' % (path, first, name))
+                continue               # function never entered by this check: listed separately
             tot += len(lines)
             for ln in sorted(lines - got):
                 miss += 1
                 rep.append('%s:%d  [%s]  %s' % (path, ln, name[-40:], src[ln - 1].strip()[:110]))
     open(os.path.join(out_dir, pid + '.txt'), 'w').write('\n'.join(rep) + '\n')
+    open(os.path.join(out_dir, pid + '.never.txt'), 'w').write('\n'.join(never) + '\n')
     print('%s rc=%d lines in entered functions of anchored files=%d never executed=%d' % (pid, r.returncode, tot, miss))
